@@ -221,6 +221,12 @@ package pokertable
 //@   ensures deregistered: old(has(m, tableID)) ==> (has(m, tableID) <==> err != nil)
 //@   ensures others-untouched: all(id, id != tableID ==> (has(m, id) <==> old(has(m, id))) && eng(m, id) == old(eng(m, id)))
 
+//@ func (*manager).Reset
+//@   property C17
+//@   requires m != nil
+//@   modifies m.tableEngines
+//@   ensures forgets-every-table: all(id, !has(m, id))
+
 //@ func NewTableEngine
 //@   property C17
 //@   returns e
@@ -381,6 +387,18 @@ package pokertable
 //@             && callfn(old(ncalls())) == "(*syncsaga.ReadyGroup).Ready" && callrecv(old(ncalls())) == ref(g.rg) && callarg(old(ncalls()), 0) == playerIdx
 //@   ensures state-kept: r == g.gs
 
+//@ spec collecting(gs) = gs.Status.CurrentEvent == "AnteRequested" || gs.Status.CurrentEvent == "BlindsRequested"
+
+//@ func (*game).Pay
+//@   property C10 C13
+//@   returns r, err
+//@   requires g != nil && g.gs != nil && ListsOK(g.gs, playerIdx)
+//@   modifies g.gs, log
+//@   ensures not-asked-refused: !old(hasAct(g.gs, playerIdx, "pay")) ==> err != nil && noCall() && unchanged(g.gs) && r == g.gs
+//@   ensures failure-is-identity: err != nil ==> unchanged(g.gs) && r == g.gs && ncalls() <= old(ncalls()) + 1
+//@   ensures at-most-one-step: ncalls() <= old(ncalls()) + 2
+//@   ensures state-returned: r == g.gs && g.gs != nil
+
 // ---- table bookkeeping: id <-> index translation (C02) -----------------------------------------
 
 //@ spec tPS(t) = t.State.PlayerStates
@@ -407,6 +425,11 @@ package pokertable
 //@   loop 0 decreases len(tPS(t)) - rangeindex
 //@   ensures found: r != -1 ==> 0 <= r && r < len(tPS(t)) && tPS(t)[r].PlayerID == playerID && forall(j, 0, r, tPS(t)[j].PlayerID != playerID)
 //@   ensures not-found: r == -1 ==> forall(j, 0, len(tPS(t)), tPS(t)[j].PlayerID != playerID)
+
+//@ func (Table).GamePlayerIndex
+//@   inline
+//@   loop 0 unroll 10
+//@   loop 1 unroll 10
 
 //@ func (Table).FindPlayerIndexFromGamePlayerIndex
 //@   property C02
@@ -460,6 +483,26 @@ package pokertable
 //@     && LPA(te).GameCount == St(te).GameCount && LPA(te).TableID == te.table.ID
 //@     && (St(te).GameState != nil ==> LPA(te).GameID == St(te).GameState.GameID && LPA(te).Round == St(te).GameState.Status.Round)
 
+//@ spec didSame(a, b) = a.IsVPIP == b.IsVPIP && a.IsPFR == b.IsPFR && a.IsATS == b.IsATS && a.Is3B == b.Is3B && a.IsFt3B == b.IsFt3B && a.IsCheckRaise == b.IsCheckRaise
+//@     && a.IsCBet == b.IsCBet && a.IsFtCB == b.IsFtCB && a.IsFold == b.IsFold && a.FoldRound == b.FoldRound && a.ActionTimes == b.ActionTimes && a.RaiseTimes == b.RaiseTimes
+//@     && a.CallTimes == b.CallTimes && a.CheckTimes == b.CheckTimes && a.IsShowdownWinning == b.IsShowdownWinning && a.ShowdownWinningChance == b.ShowdownWinningChance
+//@ spec chanceOnlyRaised(a, b) = (b.IsVPIPChance ==> a.IsVPIPChance) && (b.IsPFRChance ==> a.IsPFRChance) && (b.IsATSChance ==> a.IsATSChance) && (b.Is3BChance ==> a.Is3BChance)
+//@     && (b.IsFt3BChance ==> a.IsFt3BChance) && (b.IsCheckRaiseChance ==> a.IsCheckRaiseChance) && (b.IsCBetChance ==> a.IsCBetChance) && (b.IsFtCBChance ==> a.IsFtCBChance)
+
+// the chance flags of the player whose turn it is are raised when a new decision is put to them; a flag once set stays set,
+// nothing a player did is rewritten, and nobody else's statistics are touched
+//@ func (*tableEngine).updateCurrentPlayerGameStatistics
+//@   property C14 C16
+//@   requires EngShape(te) && HandShape(te) && StatsInv(te) && gs != nil && GsShape(gs) && !held(te.lock)
+//@   requires forall(k, 0, 10, ListsOK(gs, k))
+//@   requires gs.Status.CurrentPlayer < len(gs.Players) && len(gs.Players) == len(GPI(te))     // the hand state has one player per hand entry (startGame builds it that way)
+//@   guarded te.lock : "pokertable.tableEngine.table", "pokertable.Table.", "pokertable.TableState.", "pokertable.TablePlayerState."
+//@   modifies forall(i, 0, 10, PS(te)[i].GameStatistics)
+//@   ensures stats-inv: StatsInv(te)
+//@   ensures what-was-done-is-kept: forall(i, 0, 10, i < len(PS(te)) ==> didSame(PS(te)[i].GameStatistics, old(PS(te)[i].GameStatistics)) && chanceOnlyRaised(PS(te)[i].GameStatistics, old(PS(te)[i].GameStatistics)))
+//@   ensures only-the-player-to-act: forall(i, 0, 10, i < len(PS(te)) && !(0 <= gs.Status.CurrentPlayer && gs.Status.CurrentPlayer < len(GPI(te)) && GPI(te)[gs.Status.CurrentPlayer] == i)
+//@             ==> PS(te)[i].GameStatistics == old(PS(te)[i].GameStatistics))
+
 //@ func (*tableEngine).refreshThreeBet
 //@   inline
 //@   loop 0 unroll 10
@@ -483,6 +526,36 @@ package pokertable
 //@   ensures stats-others: err == nil ==> forall(k, 0, 10, gidx(te, playerID, k) ==> statsSameExcept(te, PS(te)[GPI(te)[k]]))
 //@   ensures counts: err == nil ==> forall(k, 0, 10, gidx(te, playerID, k) ==> PS(te)[GPI(te)[k]].GameStatistics.ActionTimes == old(PS(te)[GPI(te)[k]].GameStatistics.ActionTimes) + 1 && PS(te)[GPI(te)[k]].GameStatistics.RaiseTimes == old(PS(te)[GPI(te)[k]].GameStatistics.RaiseTimes) && PS(te)[GPI(te)[k]].GameStatistics.CallTimes == old(PS(te)[GPI(te)[k]].GameStatistics.CallTimes) && PS(te)[GPI(te)[k]].GameStatistics.CheckTimes == old(PS(te)[GPI(te)[k]].GameStatistics.CheckTimes))
 //@   ensures fold-flag: err == nil ==> forall(k, 0, 10, gidx(te, playerID, k) ==> PS(te)[GPI(te)[k]].GameStatistics.IsFold && PS(te)[GPI(te)[k]].GameStatistics.FoldRound == te.game.gs.Status.Round)
+
+//@ func (*tableEngine).PlayerReady
+//@   property C10 C16
+//@   returns err
+//@   requires EngShape(te) && HandShape(te) && GameOn(te) && TableGsOK(te) && !held(te.lock)
+//@   requires playing(te) ==> forall(k, 0, 10, ListsOK(te.game.gs, k))     // allowed-action / position lists of a hand state have at most ten entries (pokerface)
+//@   guarded te.lock : "pokertable.tableEngine.table", "pokertable.tableEngine.game", "pokertable.Table.", "pokertable.TableState.", "pokertable.TablePlayerState."
+//@   modifies St(te).LastPlayerGameAction, log
+//@   ensures not-playing-refused: !playing(te) ==> err != nil && noCall()
+//@   ensures stranger-refused: !inHand(te, playerID) ==> err != nil && noCall()
+//@   ensures not-asked-refused: playing(te) ==> forall(k, 0, 10, gidx(te, playerID, k) && !old(hasAct(te.game.gs, k, "ready")) ==> err != nil && noCall())
+//@   ensures refused-leaves-no-trace: err != nil ==> unchanged(LPA(te)) && statsSame(te) && unchanged(te.game.gs)
+//@   ensures accepted-only-when-asked: err == nil ==> playing(te) && exists(k, 0, 10, gidx(te, playerID, k) && old(hasAct(te.game.gs, k, "ready")))
+//@   ensures accepted-is-published: err == nil ==> forall(k, 0, 10, gidx(te, playerID, k) ==> published(te, playerID, "ready", PS(te)[GPI(te)[k]]))
+//@   ensures statistics-untouched: statsSame(te) && unchanged(te.game.gs)
+
+//@ func (*tableEngine).PlayerPay
+//@   property C10 C16
+//@   returns err
+//@   requires EngShape(te) && HandShape(te) && GameOn(te) && TableGsOK(te) && !held(te.lock)
+//@   requires playing(te) ==> forall(k, 0, 10, ListsOK(te.game.gs, k))     // allowed-action / position lists of a hand state have at most ten entries (pokerface)
+//@   guarded te.lock : "pokertable.tableEngine.table", "pokertable.tableEngine.game", "pokertable.Table.", "pokertable.TableState.", "pokertable.TablePlayerState."
+//@   modifies St(te).LastPlayerGameAction, te.game.gs, log
+//@   ensures not-playing-refused: !playing(te) ==> err != nil && noCall()
+//@   ensures stranger-refused: !inHand(te, playerID) ==> err != nil && noCall()
+//@   ensures not-asked-refused: playing(te) ==> forall(k, 0, 10, gidx(te, playerID, k) && !old(hasAct(te.game.gs, k, "pay")) ==> err != nil && noCall())
+//@   ensures refused-leaves-no-trace: err != nil ==> unchanged(LPA(te)) && statsSame(te) && unchanged(te.game.gs)
+//@   ensures accepted-only-when-asked: err == nil ==> playing(te) && exists(k, 0, 10, gidx(te, playerID, k) && old(hasAct(te.game.gs, k, "pay")))
+//@   ensures accepted-is-published: err == nil ==> forall(k, 0, 10, gidx(te, playerID, k) ==> published(te, playerID, "pay", PS(te)[GPI(te)[k]]) && LPA(te).Chips == chips)
+//@   ensures statistics-untouched: statsSame(te)
 
 //@ func (*tableEngine).PlayerCheck
 //@   property C02 C10 C13 C14 C16
@@ -1046,6 +1119,71 @@ package pokertable
 //@   ensures nobody-else-is-asked: forall(j, 0, 10, old(ncalls()) + 3 + j < ncalls() - 1 ==>
 //@             exists(k, 0, 10, k < len(gs.Players) && owesBlind(gs, k) && askedAt(old(ncalls()) + 3 + j, g, gs.Players[k].Idx)))
 
+//@ func (*game).ReadyForAll
+//@   property C11 C13
+//@   returns r, err
+//@   requires g != nil && g.gs != nil
+//@   modifies g.gs, log
+//@   ensures one-backend-call: backendCall(g, "pokertable.GameBackend.ReadyForAll") && err == callres(old(ncalls()), 1)
+//@   ensures failure-is-identity: err != nil ==> unchanged(g.gs) && r == g.gs && ncalls() == old(ncalls()) + 1
+//@   ensures success-applied-once: err == nil ==> applied(g, r)
+
+//@ func (*game).PayAnte
+//@   property C11 C13
+//@   returns r, err
+//@   requires g != nil && g.gs != nil
+//@   modifies g.gs, log
+//@   ensures one-backend-call: backendCall(g, "pokertable.GameBackend.PayAnte") && err == callres(old(ncalls()), 1)
+//@   ensures failure-is-identity: err != nil ==> unchanged(g.gs) && r == g.gs && ncalls() == old(ncalls()) + 1
+//@   ensures success-applied-once: err == nil ==> applied(g, r)
+
+//@ func (*game).PayBlinds
+//@   property C11 C13
+//@   returns r, err
+//@   requires g != nil && g.gs != nil
+//@   modifies g.gs, log
+//@   ensures one-backend-call: backendCall(g, "pokertable.GameBackend.PayBlinds") && err == callres(old(ncalls()), 1)
+//@   ensures failure-is-identity: err != nil ==> unchanged(g.gs) && r == g.gs && ncalls() == old(ncalls()) + 1
+//@   ensures success-applied-once: err == nil ==> applied(g, r)
+
+// completion handlers of the ready group: the collective step is taken exactly once; a failing backend is
+// reported through the error callback and leaves the hand state and the allowed actions as they were
+//@ func (*game).onReadyRequested$1
+//@   property C11 C13
+//@   requires g != nil && g.gs != nil && GsPlayersOK(gs)
+//@   modifies g.gs, forall(k, 0, 10, k < len(gs.Players) ==> gs.Players[k].AllowedActions), log
+//@   loop 0 unroll 10
+//@   ensures one-collective-step: callfn(old(ncalls())) == "pokertable.GameBackend.ReadyForAll" && callarg(old(ncalls()), 0) == ref(old(g.gs))
+//@   ensures failure-is-reported-not-lost: callres(old(ncalls()), 1) != 0 ==> ncalls() == old(ncalls()) + 2 && callfn(old(ncalls()) + 1) == "callback:onGameErrorUpdated"
+//@             && callarg(old(ncalls()) + 1, 1) == callres(old(ncalls()), 1) && unchanged(g.gs)
+//@             && forall(k, 0, 10, k < len(gs.Players) ==> sameslice(gs.Players[k].AllowedActions, old(gs.Players[k].AllowedActions)))
+//@   ensures success-applied-once: callres(old(ncalls()), 1) == 0 ==> callfn(old(ncalls()) + 1) == "game.enqueue" && callarg(old(ncalls()) + 1, 0) == callres(old(ncalls()), 0)
+//@   ensures nobody-is-asked-twice: callres(old(ncalls()), 1) == 0 ==> forall(k, 0, 10, k < len(gs.Players) ==> !hasAct(gs, k, "ready"))
+
+//@ func (*game).onAnteRequested$1
+//@   property C11 C13
+//@   requires g != nil && g.gs != nil && GsPlayersOK(gs)
+//@   modifies g.gs, forall(k, 0, 10, k < len(gs.Players) ==> gs.Players[k].AllowedActions), log
+//@   loop 0 unroll 10
+//@   ensures one-collective-step: callfn(old(ncalls())) == "pokertable.GameBackend.PayAnte" && callarg(old(ncalls()), 0) == ref(old(g.gs))
+//@   ensures failure-is-reported-not-lost: callres(old(ncalls()), 1) != 0 ==> ncalls() == old(ncalls()) + 2 && callfn(old(ncalls()) + 1) == "callback:onGameErrorUpdated"
+//@             && callarg(old(ncalls()) + 1, 1) == callres(old(ncalls()), 1) && unchanged(g.gs)
+//@             && forall(k, 0, 10, k < len(gs.Players) ==> sameslice(gs.Players[k].AllowedActions, old(gs.Players[k].AllowedActions)))
+//@   ensures success-applied-once: callres(old(ncalls()), 1) == 0 ==> callfn(old(ncalls()) + 1) == "game.enqueue" && callarg(old(ncalls()) + 1, 0) == callres(old(ncalls()), 0)
+//@   ensures nobody-is-asked-twice: callres(old(ncalls()), 1) == 0 ==> forall(k, 0, 10, k < len(gs.Players) ==> !hasAct(gs, k, "pay"))
+
+//@ func (*game).onBlindsRequested$1
+//@   property C11 C13
+//@   requires g != nil && g.gs != nil && GsPlayersOK(gs)
+//@   modifies g.gs, forall(k, 0, 10, k < len(gs.Players) ==> gs.Players[k].AllowedActions), log
+//@   loop 0 unroll 10
+//@   ensures one-collective-step: callfn(old(ncalls())) == "pokertable.GameBackend.PayBlinds" && callarg(old(ncalls()), 0) == ref(old(g.gs))
+//@   ensures failure-is-reported-not-lost: callres(old(ncalls()), 1) != 0 ==> ncalls() == old(ncalls()) + 2 && callfn(old(ncalls()) + 1) == "callback:onGameErrorUpdated"
+//@             && callarg(old(ncalls()) + 1, 1) == callres(old(ncalls()), 1) && unchanged(g.gs)
+//@             && forall(k, 0, 10, k < len(gs.Players) ==> sameslice(gs.Players[k].AllowedActions, old(gs.Players[k].AllowedActions)))
+//@   ensures success-applied-once: callres(old(ncalls()), 1) == 0 ==> callfn(old(ncalls()) + 1) == "game.enqueue" && callarg(old(ncalls()) + 1, 0) == callres(old(ncalls()), 0)
+//@   ensures nobody-is-asked-twice: callres(old(ncalls()), 1) == 0 ==> forall(k, 0, 10, k < len(gs.Players) ==> !hasAct(gs, k, "pay"))
+
 //@ func (*game).onRoundClosed
 //@   property C11 C13
 //@   requires g != nil && gs != nil
@@ -1168,6 +1306,57 @@ package pokertable
 //@                   && PS(te)[old(len(PS(te))) + k].Bankroll == players[k].RedeemChips && !PS(te)[old(len(PS(te))) + k].IsIn && !PS(te)[old(len(PS(te))) + k].IsParticipated
 //@                   && (players[k].Seat != -1 ==> PS(te)[old(len(PS(te))) + k].Seat == players[k].Seat)
 //@                   && SeatMap(te)[PS(te)[old(len(PS(te))) + k].Seat] == old(len(PS(te))) + k)
+
+// ---- external lifecycle requests (C07) ----------------------------------------------------------------
+//@ func (*tableEngine).ReleaseTable
+//@   property C07
+//@   returns err
+//@   requires te != nil
+//@   modifies te.isReleased
+//@   ensures released: te.isReleased && err == nil
+
+//@ func (*tableEngine).PauseTable
+//@   property C07
+//@   returns err
+//@   requires te != nil && te.table != nil && St(te) != nil
+//@   modifies St(te).Status, te.table.UpdateAt, te.table.UpdateSerial, log
+//@   ensures pausing: St(te).Status == TableStateStatus_TablePausing && err == nil
+//@   ensures opens-nothing: St(te).GameCount == old(St(te).GameCount) && unchanged(St(te).GameState) && unchanged(te.game)
+
+//@ func (*tableEngine).CloseTable
+//@   property C07
+//@   returns err
+//@   requires te != nil && te.table != nil && St(te) != nil
+//@   modifies St(te).Status, te.isReleased, te.table.UpdateAt, te.table.UpdateSerial, log
+//@   ensures closed-and-released: St(te).Status == TableStateStatus_TableClosed && te.isReleased && err == nil
+//@   ensures opens-nothing: St(te).GameCount == old(St(te).GameCount) && unchanged(St(te).GameState) && unchanged(te.game)
+
+//@ func (*tableEngine).StartTableGame
+//@   property C07
+//@   returns err
+//@   requires te != nil && te.table != nil && St(te) != nil
+//@   modifies St(te).StartAt, te.table.UpdateAt, te.table.UpdateSerial, log
+//@   ensures second-start-is-a-no-op: old(St(te).StartAt) != -1 ==> noCall() && unchanged(St(te).StartAt) && err == nil
+//@   ensures first-start-asks-for-the-first-hand: old(St(te).StartAt) == -1 ==> St(te).StartAt == ghostnow() && callfn(ncalls() - 1) == "callback:onReadyOpenFirstTableGame" && err == nil
+//@   ensures status-untouched: unchanged(St(te).Status) && St(te).GameCount == old(St(te).GameCount) && unchanged(St(te).GameState) && unchanged(te.game)
+
+// ---- table creation (C03 C07 C12 C17) -----------------------------------------------------------------
+//@ func (*tableEngine).CreateTable
+//@   property C03 C07 C12 C17
+//@   returns table, err
+//@   requires te != nil && te.rg != nil && 2 <= tableSetting.Meta.TableMaxSeatCount && tableSetting.Meta.TableMaxSeatCount <= 10
+//@   requires 0 <= len(tableSetting.JoinPlayers) && len(tableSetting.JoinPlayers) <= 10
+//@   modifies te.sm, te.ogm, te.table, log
+//@   allocates
+//@   ensures more-players-than-seats-refused: len(tableSetting.JoinPlayers) > tableSetting.Meta.TableMaxSeatCount ==> err == ErrTableInvalidCreateSetting && table == nil && unchanged(te.table) && noCall()
+//@   ensures success-returns-the-engine-table: err == nil ==> table != nil && table == te.table && fresh(table) && table.ID == tableSetting.TableID && table.Meta == tableSetting.Meta
+//@   ensures failure-returns-no-table: err != nil ==> table == nil
+//@   ensures created-on-a-break-starts-paused: err == nil && tableSetting.Blind.Level == -1 ==> St(te).Status == TableStateStatus_TablePausing
+//@   ensures otherwise-created-or-balancing: err == nil && tableSetting.Blind.Level != -1 ==> St(te).Status == TableStateStatus_TableCreated
+//@             || (tableSetting.Meta.Mode == CompetitionMode_MTT && len(tableSetting.JoinPlayers) > 0 && St(te).Status == TableStateStatus_TableBalancing)
+//@   ensures no-hand-yet: err == nil ==> St(te).GameCount == 0 && St(te).GameState == nil && len(GPI(te)) == 0 && St(te).BlindState != nil && St(te).BlindState.Level == tableSetting.Blind.Level
+//@   ensures inv: err == nil ==> TableWF(te) && Coupled(te)
+//@   ensures seats-everyone-given: err == nil ==> len(PS(te)) == len(tableSetting.JoinPlayers)
 
 //@ func (*tableEngine).PlayerReserve
 //@   property C01 C03 C05 C16
